@@ -264,6 +264,8 @@ impl Prop for C04 {
         v.extend(crate::props::c10::C10.cases(tier, seed ^ 0x04).into_iter().filter(|c| get(c, "ext") == "1"));
         // the destination fails (every error kind, would-block and timed-out among them, after none or part of a chunk was taken, or at the flush): the error is final —
         // nothing further is written, what was written is a prefix of the authentic plaintext, no success is reported
+        // through the tool, with the plaintext on standard output and a sender the keyring does not know: standard output carries the plaintext and nothing else
+        v.extend(crate::props::c12::C12.cases(tier, seed ^ 0x24).into_iter().filter(|c| get(c, "op") == "decrypt" && get(c, "kr") == "sender-absent" && get(c, "input").starts_with("valid") && getn(c, "w") & 2 == 0).take(12));
         v.extend(crate::props::c10::C10.cases(tier, seed ^ 0x14).into_iter().filter(|c| (get(c, "side") == "write" || get(c, "side") == "flush") && get(c, "kind") == "eo" && (get(c, "op") == "dec" || get(c, "op").ends_with("decrypt")))); v }
-    fn run(&self, c: &Case, m: &mut Model) -> Outcome { if get(c, "op") == "cli-devfull" || get(c, "ext") == "1" || !get(c, "side").is_empty() { crate::props::c10::C10.run(c, m) } else if get(c, "kind") == "cli" { run_c04_cli(c, m) } else { run_tamper(c, m, true) } }
+    fn run(&self, c: &Case, m: &mut Model) -> Outcome { if !get(c, "kr").is_empty() { crate::props::c12::C12.run(c, m) } else if get(c, "op") == "cli-devfull" || get(c, "ext") == "1" || !get(c, "side").is_empty() { crate::props::c10::C10.run(c, m) } else if get(c, "kind") == "cli" { run_c04_cli(c, m) } else { run_tamper(c, m, true) } }
 }
